@@ -90,6 +90,12 @@ def gen_case(rng, tier, idx, shard, nshards):
     if len(m.pnames) >= 3 and rng.random() < 0.35:
         nm = m.pnames[int(rng.integers(0, len(m.pnames)))]
         fixed[nm] = float(np.round(m.defaults[m.pnames.index(nm)] * rng.uniform(0.98, 1.02), 5))
+    force_last_fixed = gi % 16 in (3, 10) and len(m.pnames) >= 3
+    if force_last_fixed:
+        # the last-listed parameter fixed, the others free: the generic searches (asymmetric errors, cl= profiles) have to re-minimise over
+        # the remaining free parameters although the parameter they meet last is fixed
+        nm = m.pnames[-1]
+        fixed = {nm: float(np.round(m.defaults[-1] * rng.uniform(0.98, 1.02), 5))}
     start = {nm: float(np.round(d * rng.uniform(0.95, 1.05), 5)) for nm, d in zip(m.pnames, m.defaults) if nm not in fixed}
     limited = {}
     if ftype == "xy" and rng.random() < 0.3:
@@ -101,6 +107,9 @@ def gen_case(rng, tier, idx, shard, nshards):
         limited[nm] = [float(np.round(d0 - w, 4)), float(np.round(d0 + w * rng.uniform(0.6, 1.6), 4))]
     # which extras: profiles are cheap with iminuit, scipy asymmetric errors (~2 s) and contours (~5 s) are sampled sparsely
     extras = {"profile": True, "asymmetric": bool(minimizer == "iminuit" or gi % 6 == 1), "contour": bool((minimizer == "iminuit" and gi % 3 == 0) or gi % 24 == 5), "sigma": float(rng.choice([1.0, 2.0]))}
+    if force_last_fixed:
+        extras["asymmetric"] = True
+        limited = {}
     return {"property": "C07", "kind": "fit", "spec": spec, "setup": setup, "fixed": fixed, "limited": limited, "start": start, "extras": extras, "aux_seed": int(rng.integers(0, 2**31))}
 
 
